@@ -5,6 +5,8 @@ import (
 	"go/types"
 	"strconv"
 
+	"vp/sym"
+
 	"golang.org/x/tools/go/ssa"
 )
 
@@ -96,6 +98,9 @@ func (x *Exec) InstallVP(params map[string]int64) {
 	}
 	in[vpPkg+"Assume"] = func(x *Exec, f *frame, call *ssa.CallCommon, a []Val, g *Term) Val {
 		x.H.Assumes = append(x.H.Assumes, c.Or(c.Not(g), a[0].(*Term)))
+		if g.IsConst() && g.C == 1 {
+			x.noteKnown(a[0].(*Term), true)
+		}
 		return nil
 	}
 	in[vpPkg+"Assert"] = func(x *Exec, f *frame, call *ssa.CallCommon, a []Val, g *Term) Val {
@@ -222,4 +227,45 @@ func (x *Exec) StoreSliceElem(s *SliceV, i int, v Val, g *Term) {
 	}
 	path := append(append([]PathEl(nil), s.Path...), PathEl{Field: -1, Idx: x.C.Add(s.Off, x.i64(int64(i)))})
 	s.Obj.V = x.storePath(s.Obj.V, path, v, g)
+}
+
+// noteKnown records the literals an unconditional assumption fixes: later branches on exactly these terms are decided
+// instead of forked (assumptions are not retroactive: only code executed after the assumption is affected, and
+// every obligation created from here on carries the assumption anyway).
+func (x *Exec) noteKnown(t *Term, v bool) {
+	if x.Known == nil {
+		x.Known = map[*Term]bool{}
+	}
+	switch {
+	case t.Op == sym.ONot:
+		x.noteKnown(t.Args[0], !v)
+	case t.Op == sym.OAnd && t.W == 1 && v:
+		for _, a := range t.Args {
+			x.noteKnown(a, true)
+		}
+	case t.Op == sym.OOr && t.W == 1 && !v:
+		for _, a := range t.Args {
+			x.noteKnown(a, false)
+		}
+	default:
+		if !t.IsConst() {
+			x.Known[t] = v
+		}
+	}
+}
+
+// knownCond replaces a branch condition by its assumed truth value when an earlier unconditional assumption fixed it.
+func (x *Exec) knownCond(t *Term) *Term {
+	if len(x.Known) == 0 || t.IsConst() {
+		return t
+	}
+	if v, ok := x.Known[t]; ok {
+		return x.C.Bool(v)
+	}
+	if t.Op == sym.ONot {
+		if v, ok := x.Known[t.Args[0]]; ok {
+			return x.C.Bool(!v)
+		}
+	}
+	return t
 }
